@@ -2,6 +2,7 @@
 """Regenerates the `fixed` list of known_findings.json from /repo's "fix:" commits."""
 import json, subprocess
 PROP = {
+"dialect converters modified the user":"C18",
 "types reached through serialized methods were invisible":"C17",
 "apischema.validation.validate ignored the global aliaser":"C11",
 "JSON schema generation depended on the global pass-through":"C11",
